@@ -3,8 +3,8 @@
 (selene-lib/src/ast_util/side_effects.rs).
 -/
 import Selene.Lints.SideEffects
-namespace Selene.Lints.IfsSameCond
-open Selene.Lua Selene.Lints Selene.Lints.SideEffects
+namespace Selene.LintsB.IfsSameCond
+open Selene.Lua Selene.LintsB Selene.LintsB.SideEffects
 
 def similar (toks : List String) (seps : List Nat) (a b : Expr) : Bool := simToks toks seps a.span == simToks toks seps b.span
 
@@ -66,4 +66,4 @@ end
 def callsE (e : Expr) : Bool := calls true e
 end Doc
 
-end Selene.Lints.IfsSameCond
+end Selene.LintsB.IfsSameCond
